@@ -657,7 +657,8 @@ class ExtendedCopy(SCSICommand):
         )
 
         # Update the descriptor_type_code in case an int was not supplied
-        segment_dict["descriptor_type_code"] = descriptor_type_code
+        # (in a copy: the caller's dictionary is not modified)
+        segment_dict = dict(segment_dict, descriptor_type_code=descriptor_type_code)
 
         if descriptor_type_code in [0x00, 0x0B]:
             return cls.encode_segment_dict(
